@@ -28,9 +28,7 @@ def run():
             c.count_nontrivial(json.dumps(k, sort_keys=True))
     if not c.replay_path:
         def neg(pred, mut, prefix):
-            e = copy.deepcopy(next(e for e in evs if pred(e)))
-            mut(e)
-            c.add_negative(e, prefix)
+            c.negative_from(evs, pred, mut, prefix)
         def bump_ref(e):
             f = e["steps"][0]["rx"][0]
             e["steps"][0]["rx"][0] = [f[0] if f[0] else 1, f[1] + 11, f[2]]
